@@ -1,9 +1,11 @@
 package main
 
 import (
+	"context"
 	"errors"
 	"fmt"
 	"io"
+	"os"
 	"reflect"
 	"regexp"
 	"sort"
@@ -110,6 +112,11 @@ func runReal(c Case) (o outcome) {
 		}
 	}()
 	opts := &scriggo.RunOptions{Print: func(any) {}}
+	if c.Timeout > 0 {
+		ctx, cancel := context.WithTimeout(context.Background(), c.Timeout)
+		defer cancel()
+		opts.Context = ctx
+	}
 	if c.Tmpl {
 		t, err := buildTemplate(c)
 		if err != nil {
@@ -189,6 +196,8 @@ func oracle(c Case, o outcome) string {
 	case o.err == nil:
 	case o.errType == "*scriggo.PanicError":
 	case o.err == errStop:
+	case c.Timeout > 0 && o.err == context.DeadlineExceeded:
+		// the context given to Run has expired: the context's error, as Run documents
 	case o.errType == "*errors.errorString" && o.errMsg == "fatal error: go of nil func value":
 	case c.Tmpl && o.errType == "*errors.errorString" && strings.HasPrefix(o.errMsg, "cannot show value of type "):
 		// a value that cannot be shown: the renderer's error, as Run documents
@@ -235,6 +244,9 @@ func run(c *hx.Ctx) error {
 	for n, v := range hook.OpNames() {
 		opNames[v] = n
 	}
+	if os.Getenv("VERIF_C05_ONLY") == "callables" { // to time or inspect the family alone
+		return callableCases(c)
+	}
 	if err := knownFindings(c); err != nil {
 		return err
 	}
@@ -242,6 +254,9 @@ func run(c *hx.Ctx) error {
 		return err
 	}
 	if err := programCases(c); err != nil {
+		return err
+	}
+	if err := callableCases(c); err != nil {
 		return err
 	}
 	if err := depthCases(c); err != nil {
@@ -262,6 +277,9 @@ func run(c *hx.Ctx) error {
 // knownFindings replays the recorded minimal inputs of the open findings.
 func knownFindings(c *hx.Ctx) error {
 	for _, f := range c.Findings {
+		if isCallableClass(f.ID) {
+			continue // replayed with the family (callables_run.go)
+		}
 		cs := Case{Name: "finding:" + f.ID, Src: f.Minimal}
 		o := runReal(cs)
 		c.Res.Count("finding:"+f.ID, true)
